@@ -81,9 +81,9 @@ Definition m_unbound (x : list ch) : mresult Expr.sval :=
   if Expr.name_in x Expr.system_names then Fail (MUnsup Expr.U_SYSVAR) else Fin Expr.SNone.
 Definition m_print (line : Z) (vs : list Expr.sval) (w : song) : song :=
   add_log w (zs "[PRINT](" ++ show_int line ++ zs ") " ++ join_blank (map Expr.to_s vs)).
-Definition m_limit (is_for : bool) (line : Z) (w : song) : song := add_log w (limit_msg is_for line).
+Definition m_limit (is_for : bool) (line : Z) (w : song) : song := add_log w (limit_msg (s_ja w) is_for line).
 Definition m_decl (is_int : bool) (x : list ch) (v : Expr.sval) (w : song) : song :=
-  if is_int && is_arr v then runtime_error w (msg_en_ErrorTypeMismatch ++ zs ": " ++ x) else w.
+  if is_int && is_arr v then runtime_error w (Msg.msg_ErrorTypeMismatch (s_ja w) ++ zs ": " ++ x) else w.
 Definition m_incr (v : Expr.sval) (d : Z) : Expr.sval := Expr.SInt (Expr.to_i v + d).
 Definition m_N : nat := Z.to_nat MAX_LOOP.
 
@@ -1488,7 +1488,7 @@ Theorem run_script_sem src toks ls :
   sem ML (funs_of (sl_funcs ls)) DEPTH (prog_of toks) (cfg_after_lex ls) <> Stuck ->
   run_script src = out_state (sl_funcs ls) false (sem ML (funs_of (sl_funcs ls)) DEPTH (prog_of toks) (cfg_after_lex ls)).
 Proof.
-  intros Hl Hft Hok Hns. unfold run_script. rewrite Hl. cbn [Base.bind].
+  intros Hl Hft Hok Hns. unfold run_script, run_script_lang. fold (lex_script src). rewrite Hl. cbn [Base.bind].
   exact (proj1 (exec_vs_sem (sl_funcs ls) Hft DEPTH toks false (cfg_after_lex ls) (wf_after_lex ls) Hok Hns)).
 Qed.
 
